@@ -76,7 +76,8 @@ def observe(files):
     if cb.all_measurements() or cb.total_loc():
         out.append(("measurement-view-stale-or-wrong", {"view": "empty"}, "empty codebase reports measurements"))
     for i, (p, ls) in enumerate(files):
-        cb.add_file(harness.file_entry(p, lang_of(p), ls))
+        # files with exactly three functions have them NESTED in each other (closures, local helpers); all others side by side
+        cb.add_file(harness.file_entry(p, lang_of(p), ls, nested=len(ls) == 3))
         # the views that need no aggregate() are read after EVERY step (a memo filled here must not go stale)
         so_far = [L for _, l2 in files[: i + 1] for L in l2]
         if sorted(m.value for m in cb.all_measurements()) != sorted(so_far) or cb.total_loc() != sum(so_far) or len(cb.all_files()) != i + 1:
